@@ -158,6 +158,11 @@ fn run_scenario<W: Write>(name: &str, sink: W) -> (Result<(), String>, Option<us
             if first.is_ok() { return (Err("a write into a failing sink returned Ok".to_string()), None); }
             match w.write_value_ref(&Value::String("cde".into()), &mut sink) { Ok(n) => (Ok(()), Some(n)), Err(e) => (Err(e.to_string()), None) }
         }
+        "single-generic-fresh" => {
+            let s = Schema::String;
+            let mut w = GenericSingleObjectWriter::new_with_capacity(&s, 64).unwrap();
+            match w.write_value_ref(&Value::String("cde".into()), &mut sink) { Ok(n) => (Ok(()), Some(n)), Err(e) => (Err(e.to_string()), None) }
+        }
         "single-specific-value" => {
             let w = SpecificSingleObjectWriter::<Msg>::new().unwrap();
             match w.write_value(msg(), &mut sink) { Ok(n) => (Ok(()), Some(n)), Err(e) => (Err(e.to_string()), None) }
@@ -225,7 +230,8 @@ fn cmd_run(a: &Args) -> i32 {
     for scen in SCENARIOS {
         if let Some(o) = &only { if o != scen { continue; } }
         let mut reference: Vec<u8> = Vec::new();
-        let (r, _) = run_scenario(scen, &mut reference);
+        // the reference of the reuse scenario is what a FRESH writer delivers for the second message alone
+        let (r, _) = run_scenario(if scen == "single-generic-reuse" { "single-generic-fresh" } else { scen }, &mut reference);
         if r.is_err() { eprintln!("reference run of {scen} failed: {r:?}"); return 2; }
         let policies: Vec<(usize, Option<u64>)> = if thorough {
             vec![(0, None), (1, None), (2, None), (3, None), (7, None), (64, None), (5, Some(seed)), (17, Some(seed + 1))]
